@@ -293,6 +293,8 @@ def main(tier):
     nmax = 6 if tier == 'quick' else 8
     for k, p in GRID:
         for n in range(k + len(p), nmax + 1):
+            if len(p) == 1 and n > 7:
+                continue        # one-letter prefixes match almost everywhere; two symbolic runs of length 8 do not finish in time
             specs.append(('props.C06', 'ob_strand', dict(k=k, prefix=p, lens=[n], flips=[True], second=second)))
             specs.append(('props.C06', 'ob_case', dict(k=k, prefix=p, n=n, second=second)))
         tot = 6 if tier == 'quick' else 8
